@@ -834,9 +834,16 @@ def object_histories(ck, tmp):
         with open(os.path.join(kd, "other_key.bin"), "wb") as fh:
             fh.write(keys["other_key"])
         stores.append((kd, keys))
-    plans = [[(0, KEY_NAME), (1, KEY_NAME), (0, KEY_NAME), (1, "other_key"), (1, KEY_NAME), (2, "other_key"), (0, "other_key")]]
+    # store 2 is also the DEFAULT store: a copy of the KMS script lies beside its keys, and a call without a context (index 3) means
+    # "the keys next to the KMS script".  Every call names this copy as the KMS script.
+    ksx = os.path.join(stores[2][0], "basic_kms.py")
+    shutil.copy(kms_script(), ksx)
+    stores.append((None, stores[2][1]))
+    plans = [[(0, KEY_NAME), (1, KEY_NAME), (0, KEY_NAME), (1, "other_key"), (1, KEY_NAME), (2, "other_key"), (0, "other_key")],
+             [(0, KEY_NAME), (3, KEY_NAME), (1, "other_key"), (3, "other_key"), (3, KEY_NAME), (0, KEY_NAME)],
+             [(3, KEY_NAME), (1, KEY_NAME), (3, KEY_NAME)]]
     if ck.deep:
-        plans.append([(rng.randrange(3), rng.choice([KEY_NAME, "other_key"])) for _ in range(14)])
+        plans.append([(rng.randrange(4), rng.choice([KEY_NAME, "other_key"])) for _ in range(14)])
     for pi, plan in enumerate(plans):
         e = encryptor()
         hist = []
@@ -849,7 +856,7 @@ def object_histories(ck, tmp):
                 if step % 3 == 2:          # an unrelated generate() on the same object in between
                     blob = bytes(rng.randrange(256) for _ in range(40))
                     e.generate(blob, bytes(40), 3, SuitKWAlgorithms("aes-kw-256"))
-                content, tag, info, digest, plen = e.encrypt_and_generate(pt, nm, kid, kd, SuitDigestAlgorithms(halg), SuitKWAlgorithms("direct"), kms_script())
+                content, tag, info, digest, plen = e.encrypt_and_generate(pt, nm, kid, kd, SuitDigestAlgorithms(halg), SuitKWAlgorithms("direct"), ksx)
                 files = {F_DIGEST: digest, F_SIZE: str(plen).encode(), F_INFO: info, F_CONTENT: tag + content}
                 why = oracle_eag(files, keys[nm], pt, kid, halg)
             except Exception as ex:  # noqa: BLE001
@@ -857,8 +864,8 @@ def object_histories(ck, tmp):
             ck.count("object-history", (pi, step), nontrivial=step > 0, sample={"step": step, "store": si, "key_name": nm, "history": "one Encryptor object"})
             if why:
                 fails.append({"input": {"op": "encrypt_and_generate on one Encryptor object, step %d" % step, "object_history": hist,
-                                        "stores": [{nm2: k.hex() for nm2, k in ks.items()} for _, ks in stores]},
-                              "observed": why, "expected": "the artifacts of every call decrypt with the key named in that call, from the store given in that call"})
+                                        "stores": [{nm2: k.hex() for nm2, k in ks.items()} for _, ks in stores[:3]]},
+                              "observed": why, "expected": "the artifacts of every call decrypt with the key named in that call, from the store given in that call (store 3 = no context: the keys beside the KMS script, the same keys as store 2)"})
                 break
     _clean_modules()
     return fails
@@ -944,13 +951,17 @@ def replay(path):
                     with open(os.path.join(kd, nm2 + ".bin"), "wb") as fh:
                         fh.write(bytes.fromhex(k))
                 stores.append((kd, ks))
+            ksx = os.path.join(stores[2][0], "basic_kms.py") if len(stores) > 2 else kms_script()
+            if len(stores) > 2:
+                shutil.copy(kms_script(), ksx)
+                stores.append((None, stores[2][1]))
             e = encryptor()
             for step, st in enumerate(inp["object_history"]):
                 kd, ks = stores[st["store"]]
                 pt = mkpt(st["plaintext_len"], st["plaintext_seed"])
                 if step % 3 == 2:
                     e.generate(bytes(40), bytes(40), 3, SuitKWAlgorithms("aes-kw-256"))
-                content, tag, info, digest, plen = e.encrypt_and_generate(pt, st["key_name"], st["key_id"], kd, SuitDigestAlgorithms(st["hash_alg"]), SuitKWAlgorithms("direct"), kms_script())
+                content, tag, info, digest, plen = e.encrypt_and_generate(pt, st["key_name"], st["key_id"], kd, SuitDigestAlgorithms(st["hash_alg"]), SuitKWAlgorithms("direct"), ksx)
                 why = oracle_eag({F_DIGEST: digest, F_SIZE: str(plen).encode(), F_INFO: info, F_CONTENT: tag + content}, bytes.fromhex(ks[st["key_name"]]), pt, st["key_id"], st["hash_alg"])
         elif "into the output directory of earlier" in op:
             print("the failing run is part of a history (successive runs into one output directory): re-running the histories")
